@@ -32,8 +32,23 @@ func vlist(vs []*val.V) string {
 
 // compareCase runs the real evaluator (sequence-mode style: one document as the context) and the reference.
 func compareCase(e *refsem.E, parsed *yqlib.ExpressionNode, doc *val.V, checkDoc bool) cmpResult {
-	root := impl.Doc(doc)
-	res, err, pan := impl.Eval(parsed, root)
+	return compareCaseDocs(e, parsed, []*val.V{doc}, false, checkDoc)
+}
+
+// compareCaseDocs: the context is one node per document; together = the documents are evaluated together (eval-all).
+func compareCaseDocs(e *refsem.E, parsed *yqlib.ExpressionNode, docs []*val.V, together bool, checkDoc bool) cmpResult {
+	var roots []*yqlib.CandidateNode
+	var refDocs []*val.V
+	for i, d := range docs {
+		n := impl.Doc(d)
+		if together {
+			n.EvaluateTogether = true
+			n.SetDocument(uint(i))
+		}
+		roots = append(roots, n)
+		refDocs = append(refDocs, d.Copy())
+	}
+	res, err, pan := impl.Eval(parsed, roots...)
 	var obs string
 	var got []*val.V
 	switch {
@@ -47,8 +62,12 @@ func compareCase(e *refsem.E, parsed *yqlib.ExpressionNode, doc *val.V, checkDoc
 		}
 		obs = vlist(got)
 	}
-	refDoc := doc.Copy()
-	out := refsem.Run(e, []*val.V{refDoc})
+	var out refsem.Outcome
+	if together {
+		out = refsem.RunTogether(e, refDocs)
+	} else {
+		out = refsem.Run(e, refDocs)
+	}
 	if out.Undef != "" {
 		return cmpResult{Kind: "undef", Detail: out.Undef, Outcome: obs}
 	}
@@ -72,9 +91,11 @@ func compareCase(e *refsem.E, parsed *yqlib.ExpressionNode, doc *val.V, checkDoc
 		return cmpResult{Kind: "value", Detail: fmt.Sprintf("yq [%s]; reference [%s]", obs, want), Outcome: obs}
 	}
 	if checkDoc {
-		after := impl.ToV(root).String()
-		if after != refDoc.String() {
-			return cmpResult{Kind: "docstate", Detail: fmt.Sprintf("document afterwards: yq %s; reference %s", after, refDoc.String()), Outcome: obs}
+		for i, root := range roots {
+			after := impl.ToV(root).String()
+			if after != refDocs[i].String() {
+				return cmpResult{Kind: "docstate", Detail: fmt.Sprintf("document afterwards: yq %s; reference %s", after, refDocs[i].String()), Outcome: obs}
+			}
 		}
 	}
 	return cmpResult{Outcome: obs, Defined: len(out.Results) > 0}
